@@ -1,5 +1,6 @@
 import VlsModel.Model.NodeReq
 import VlsModel.Props.C10
+import VlsModel.Props.C02
 /-
 C11 — Every acknowledged state change is already durable.
 
@@ -90,6 +91,30 @@ def forgetReadyUnfixed (s : St) : St :=
 example : Durable C10.s0 ∧ ¬ Durable (forgetReadyUnfixed C10.s0) := by
   refine ⟨rfl, ?_⟩
   simp [Durable, view, forgetReadyUnfixed, C10.s0, St.init, Core.init]
+
+/-! ### The channel-level instance
+
+The same refinement for the per-channel enforcement state (commitment and revocation counters,
+commitment contents, counterparty points and secrets, closed flag), proved on the enforcement model of
+C01–C03, whose `step` records whether the request persisted the channel entry. -/
+
+/-- **C11 for channel requests (one request)**: if the stored channel entry matched memory before, it
+    matches memory when any request returns (accepted or refused); the only exception is a request
+    that aborts the process, after which the signer is restarted from the store anyway. -/
+theorem C11_channel_durable_step (F : Nat → Secrets.Bytes → Secrets.Bytes) (s s' : Enforcement.Sys)
+    (op : Enforcement.Op) (o : Enforcement.Out) (hd : s.disk = s.mem)
+    (hs : Enforcement.step F s op = (s', o)) (hp : o.res ≠ .panic) : s'.disk = s'.mem :=
+  C02.Enforcement_durable_step F s s' op o hd hs hp
+
+/-- **C11 for channel requests (all histories)**: after any request history without a process abort
+    the store alone determines the channel's enforcement state, so a restart inserted anywhere is the
+    identity on it. -/
+theorem C11_channel_durable (F : Nat → Secrets.Bytes → Secrets.Bytes) (ops : List Enforcement.Op)
+    (hnp : Enforcement.NoPanic (Enforcement.runH F Enforcement.init [] ops).2) :
+    (Enforcement.runH F Enforcement.init [] ops).1.disk = (Enforcement.runH F Enforcement.init [] ops).1.mem
+    ∧ (Enforcement.step F (Enforcement.runH F Enforcement.init [] ops).1 .restart).1
+        = (Enforcement.runH F Enforcement.init [] ops).1 :=
+  ⟨C02.Enforcement_durable_run F ops hnp, C02.Enforcement_restart_identity F ops hnp⟩
 
 /-- non-vacuity: a history with accepted and refused requests and a restart in the middle -/
 example : ∃ sf, C10.run C10.cfg0 C10.s0
